@@ -70,4 +70,71 @@ CHECKS["C14"] = {
     "note": TB,
 }
 
+CHECKS["C05"] = {
+    "technique": "runtime monitoring: reference-model oracle (Python-int "
+                 "cyclic sum over the original matrix) on TourLength / "
+                 "Instance over generated matrices at storage-type edges",
+    "text": "Real Instance and TourLength objects are built from generated "
+            "matrices (symmetric, asymmetric, one-corner asymmetric, zeros, "
+            "10^12 entries, derived upper bound at int8/int16/int32 edges, "
+            "range multiplier) and evaluated on random / extremal / all "
+            "(n<=6) tours; value, stored matrix, symmetry flag and "
+            "lb <= len <= ub are compared with the oracle. Held on the "
+            "matrices and tours explored.",
+    "note": TB,
+}
+CHECKS["C06"] = {
+    "technique": "runtime monitoring: wrappers on the move kernels and a "
+                 "process proxy record every move / register event of real "
+                 "Executions; online oracle recomputes the exact tour length",
+    "text": "Hundreds of real EA/FEA runs (budgets 1..5000 FEs, many seeds, "
+            "synthetic and shipped symmetric instances) are observed at the "
+            "kernel boundary and at process.register/evaluate; each of the "
+            "~10^5 events is judged (permutation, exact length, EA "
+            "monotone, FEA table addresses in range). For n <= 8 every "
+            "admissible (i, j) is driven directly. Held on the runs "
+            "observed.",
+    "note": TB,
+}
+CHECKS["C07"] = {
+    "technique": "runtime monitoring: exhaustive execution of the real "
+                 "count_errors on all 12^6 consistent four-team plans per "
+                 "constraint setting against an independent feasible-set DFS "
+                 "and per-rule counter; random plans through Errors.evaluate",
+    "text": "The real kernel is run on every one of the 2 985 984 consistent "
+            "four-team double round-robin plans for several constraint "
+            "settings: zero set == independently enumerated feasible set, "
+            "value == documented per-rule count for all of them; random "
+            "plans (byes, inconsistencies, self-pairings, n=2..12) are "
+            "judged for zero-iff-feasible, non-negativity and the declared "
+            "upper bound. Exhaustive for n=4 per setting, sampled beyond.",
+    "note": TB,
+}
+CHECKS["C08"] = {
+    "technique": "runtime monitoring: simulation oracle on "
+                 "GamePlanLength.evaluate; bye replacement on every cell; "
+                 "exhaustive minimum over all 12^6 plans of shipped "
+                 "four-team instances vs. published optimum",
+    "text": "Values of the real objective on random matrices x plans equal a "
+            "plain simulation and lie in the declared bounds; zeroing any "
+            "single game cell strictly increases the value (tens of "
+            "thousands of cells); for shipped four-team instances the "
+            "minimum over all error-free plans (repository kernels, all "
+            "12^6 plans) equals the published optimum and the oracle's "
+            "minimum over the independently enumerated feasible set.",
+    "note": TB,
+}
+CHECKS["C15"] = {
+    "technique": "runtime monitoring: reference model of earliest-free-day "
+                 "decoding and composition oracle over all (n, rounds) of a "
+                 "grid; exhaustive permutations of small game multisets",
+    "text": "search_space_for_n_and_rounds is executed for every (n, rounds) "
+            "of the grid and its multiset judged (pair counts, home/away "
+            "balance per pairing and team); map_games / GameEncoding.decode "
+            "run on thousands of permutations (all of them for <= 7 games) "
+            "with dirty destinations, compared with a model and with the "
+            "derived plan invariants. Held on what was decoded.",
+    "note": TB,
+}
+
 NOT_APPLICABLE = {}
